@@ -3,6 +3,7 @@
 From Coq Require Import List ZArith NArith Bool.
 From RRSS Require Import Base.Outcome Base.Chars Base.F64 Exec.Val Exec.Ops Front.Ast Exec.Env Exec.Interp.
 From RRSS Require Import Proofs.InterpInv Proofs.InterpLaws Proofs.InterpIO.
+From RRSS Require Import Proofs.InterpPure Proofs.InterpIOLaws.
 Import ListNotations.
 
 (** each say writes exactly one line: the text and a line feed *)
@@ -81,6 +82,26 @@ Theorem C08_line_shape :
   ~ In 10%N l /\ (if fnd then s = l ++ [10%N] ++ r else s = l /\ r = []).
 Proof. exact line_shape. Qed.
 
+(** one statement at a time: a `listen` (with a plain destination or none) consumes exactly one line whether or
+    not it stores it; a `say` of a call-free expression writes exactly one line, the text of its value, and reads
+    nothing *)
+Theorem C08_listen_statement_consumes_one_line :
+  forall prof f dest l xs e xs' e',
+  (dest = None \/ exists i r, dest = Some (LIdent i r)) ->
+  exec_stmt prof (S (S f)) (SInput dest l) xs e = XOk xs' e' ->
+  exists ln c1, chan_input (chan e) = Ok (ln, c1) /\ chan e' = c1.
+Proof. exact stmt_listen_consumes_one_line. Qed.
+
+Theorem C08_say_statement_writes_one_line :
+  forall prof f x xs e xs' e',
+  pure_expr x = true -> exec_stmt prof (S f) (SOutput x) xs e = XOk xs' e' ->
+  exists v txt, to_string_for_output v = Ok txt /\
+    fst (chan_output txt (chan e)) = Ok (chan e') /\
+    out_bytes (chan e') = out_bytes (chan e) ++ utf8_encode txt ++ [10%N] /\
+    in_rest (chan e') = in_rest (chan e).
+Proof. exact stmt_say_writes_one_line. Qed.
+
 Print Assumptions C08_listen_consumes_one_line.
 Print Assumptions C08_run_is_listens_and_says.
 Print Assumptions C08_input_consumed_by_lines.
+Print Assumptions C08_say_statement_writes_one_line.
